@@ -821,6 +821,9 @@ class Exec:
             # aliasing: another local bound to the very same mutable value would see this write in Python
             if cur[0] not in ("sym",) and any(n != name and v is cur for n, v in env.items()):
                 self.fail(target, "write through an aliased local")
+            if cur[0] == "sym" and cur[1] != name and name in env:
+                # `t = mask; t[i] = v` also changes `mask` (an input, or a global): refused rather than mis-modelled
+                self.fail(target, "write through an alias of an input")
             if cur[0] == "list" and is_const(idx) and type(idx[1]) is int and -len(cur[1]) <= idx[1] < len(cur[1]):
                 items = list(cur[1])
                 items[idx[1]] = value
